@@ -20,8 +20,8 @@ ID = "C05"
 LEVEL = "exploration"
 RULE = ("sequences of steps over {define n v | use ref | [ begin include | ] end include}: every "
         "sequence of up to 3 (quick) / 4 (thorough) steps over the full alphabet (4 spellings of "
-        "3 names x 8 values incl. '', '$other', '$$other', '${OTHER}x', padded; 2 illegal "
-        "names; 5 references) and of up to 4/5 steps over a 12-symbol core alphabet, includes "
+        "3 names x 8 values incl. '', '$other', '$$other', '${OTHER}x', padded; 5 illegal "
+        "names incl. three with letters that only case-insensitive matching equates with ASCII; 7 references) and of up to 4/5 steps over a 12-symbol core alphabet, includes "
         "nested up to 2 levels; Hypothesis sequences up to 8 steps. Each sequence is loaded "
         "twice against one schema object and followed by a use-without-define probe. "
         "Non-trivial = the sequence re-defines a name, or a reference/definition crosses an "
@@ -43,7 +43,10 @@ NAMES = ["a", "A", "b", "c"]
 VALUES = ["v", "w", "", "$b", "$$b", "${B}x", "  p  q ", "$a", "p q"]
 FULL = ([("d", n, v) for n in NAMES for v in VALUES] +
         [("d", "1x", "v"), ("d", "a-b", "v")] +
-        [("u", r) for r in ("$a", "${A}x", "$b", "$c", "$$a")] + [("[",), ("]",)])
+        # letters outside ASCII are not name characters -- not even the three that case-insensitive
+        # matching equates with ASCII letters (long s, dotless i, Kelvin sign)
+        [("d", "\u017f", "v"), ("d", "a\u212a", "v"), ("d", "b\u0131", "v")] +
+        [("u", r) for r in ("$a", "${A}x", "$b", "$c", "$$a", "$a\u212a", "$b\u017f")] + [("[",), ("]",)])
 CORE = [("d", "a", "v"), ("d", "a", "w"), ("d", "A", "v"), ("d", "a", "$b"), ("d", "a", "$$b"),
         ("d", "a", "p q"), ("d", "A", "p  q"),
         ("d", "b", "v"), ("d", "b", "w"), ("d", "a", ""), ("u", "$a"), ("u", "$B"),
